@@ -166,3 +166,281 @@ Proof.
   - field; assumption.
   - field; tauto.
 Qed.
+
+(* ------------------------------------------------------------------------------------------ *)
+(** * (d) np.fix and the sub-pixel remainder: nothing is dropped *)
+
+Lemma this_sub_zq (s : Qc) (k : Z) : (this (s - zq k) == this s - inject_Z k)%Q.
+Proof. unfold Qcminus, Qcplus, Qcopp, zq, Q2Qc. cbn [this]. rewrite !Qred_correct. reflexivity. Qed.
+
+Theorem fix_subpx_split (s : Qc) :
+  s = zq (fst (fix_subpx s)) + snd (fix_subpx s)
+  /\ - (1) < snd (fix_subpx s) /\ snd (fix_subpx s) < 1
+  /\ (0 <= s -> 0 <= snd (fix_subpx s)) /\ (s <= 0 -> snd (fix_subpx s) <= 0).
+Proof.
+  unfold fix_subpx. cbn [fst snd]. split; [ring|].
+  unfold Qclt, Qcle. rewrite !this_sub_zq. unfold qfix.
+  destruct s as [q Hc]. destruct q as [n d]. cbn [this Qnum Qden].
+  unfold Qlt, Qle, Qminus, Qplus, Qopp, inject_Z. cbn [Qnum Qden this Q2Qc Qred].
+  cbn.
+  repeat split; intros; lia.
+Qed.
+
+Lemma zq_sub a b : zq (a - b) = zq a - zq b.
+Proof. replace a with ((a - b) + b)%Z at 2 by lia. rewrite zq_add. ring. Qed.
+
+(* ------------------------------------------------------------------------------------------ *)
+(** * the window propagate_dft evaluates for a tilted field, and the coordinates of its samples *)
+
+Lemma zq_coord x y z f s : (x - y = z - f)%Z -> zq x - (zq y + (s - zq f)) = zq z - s.
+Proof. intros H. replace x with (y + (z - f))%Z by lia. rewrite zq_add, zq_sub. ring. Qed.
+
+Theorem tilted_window_samples (oe : extent) (Pr Pc : Z) (sr sc : Qc) Ir Ic isr isc shr shc :
+  (0 < Pr)%Z -> (0 < Pc)%Z ->
+  tilted_window oe Pr Pc sr sc = Some ((Ir, Ic), (isr, isc), (shr, shc)) ->
+  let ie := intersection_extent oe (array_extent Pr Pc (qfix sr) (qfix sc)) in
+  (* the output field (shape (Ir, Ic), offset (isr, isc)) covers exactly the intersection ... *)
+  array_extent Ir Ic isr isc = ie
+  (* ... and sample (a, b) of it, which sits at plane coordinate (a + rmin, b + cmin), is transformed at
+     the coordinate minus the complete (integer + sub-pixel) shift *)
+  /\ forall a b, zq (a - Ir / 2) - shr = zq (a + fst (fst (fst ie))) - sr
+              /\ zq (b - Ic / 2) - shc = zq (b + snd (fst ie)) - sc.
+Proof.
+  intros HPr HPc. unfold tilted_window, fix_subpx.
+  set (fr := qfix sr). set (fc := qfix sc). clearbody fr fc.
+  destruct oe as [[[o1 o2] o3] o4].
+  unfold intersect, intersection_shape, intersection_shift, intersection_extent, array_extent, array_center.
+  set (r1 := Z.max o1 (- (Pr / 2) + fr)). set (r2 := Z.min o2 (- (Pr / 2) + fr + Pr - 1)).
+  set (c1 := Z.max o3 (- (Pc / 2) + fc)). set (c2 := Z.min o4 (- (Pc / 2) + fc + Pc - 1)).
+  destruct (_ && _ && _ && _) eqn:Hi; [|discriminate].
+  destruct ((r2 - r1 + 1 <=? 0)%Z || (c2 - c1 + 1 <=? 0)%Z) eqn:Hs; [discriminate|].
+  intros H. injection H as <- <- <- <- <- <-. cbn [fst snd].
+  assert (Hr : (r1 <= r2)%Z) by lia. assert (Hc : (c1 <= c2)%Z) by lia.
+  clear Hi Hs. clearbody r1 r2 c1 c2.
+  split.
+  - repeat f_equal; lia.
+  - intros a b. split; apply zq_coord; lia.
+Qed.
+
+(* ------------------------------------------------------------------------------------------ *)
+(** * (c) an OPD ramp in the pupil is a shift of the output coordinates *)
+
+Section Ramp.
+Variable S : Scalar.
+Hypothesis Sring : is_ring S.
+Hypothesis Skernel : kernel_laws S.
+Variable sq : Qc -> S.
+Add Ring Sr2 : Sring.
+
+(* the plane phasor exp(+2 pi i opd / lambda) = ke(-opd/lambda) of the ramp that Tilt(x=a, y=b) stands for *)
+Definition ramped (f : arr S) (a b dxr dxc wl : Qc) (offr offc : Z) : arr S :=
+  mkArr (nr f) (nc f) (fun x y =>
+    (get f x y * ke (- (opd_ramp a b dxr dxc (x - nr f / 2 + offr) (y - nc f / 2 + offc) / wl)))%K).
+
+Theorem ramp_is_shift (f : arr S) a b dxr dxc dur duc wl z os offr offc U V :
+  dur <> 0 -> duc <> 0 -> wl <> 0 -> z <> 0 -> os <> 0 ->
+  fourier_sum (ramped f a b dxr dxc wl offr offc)
+     (dft_alpha dxr dur wl z os) (dft_alpha dxc duc wl z os) offr offc U V
+  = fourier_sum f (dft_alpha dxr dur wl z os) (dft_alpha dxc duc wl z os) offr offc
+      (U - z * a * os / dur) (V - - (z * b * os / duc)).
+Proof.
+  intros H1 H2 H3 H4 H5.
+  rewrite <- (fourier_sum_ramp S Sring Skernel f).
+  apply (fourier_sum_ext S); try reflexivity.
+  intros x y _ _. unfold ramped. cbn [get nr nc]. f_equal. f_equal.
+  unfold opd_ramp, dft_alpha. field. repeat split; assumption.
+Qed.
+
+(* the same for the transform lentil computes: multiplying by the ramp phasor and transforming with
+   shift (shr, shc) = transforming the plain field with shift (shr + s_r, shc + s_c) *)
+Theorem dft2_ramp_is_shift (f : arr S) a b dxr dxc dur duc wl z os offr offc M N shr shc unitary u v :
+  dur <> 0 -> duc <> 0 -> wl <> 0 -> z <> 0 -> os <> 0 -> (0 <= u < M)%Z -> (0 <= v < N)%Z ->
+  get (dft2 sq (ramped f a b dxr dxc wl offr offc)
+         (dft_alpha dxr dur wl z os) (dft_alpha dxc duc wl z os) M N shr shc offr offc unitary) u v
+  = get (dft2 sq f (dft_alpha dxr dur wl z os) (dft_alpha dxc duc wl z os) M N
+           (shr + z * a * os / dur) (shc + - (z * b * os / duc)) offr offc unitary) u v.
+Proof.
+  intros H1 H2 H3 H4 H5 Hu Hv.
+  rewrite !(dft2_defining_sum S Sring Skernel) by assumption.
+  rewrite ramp_is_shift by assumption. f_equal. f_equal; ring.
+Qed.
+
+(* what propagate_dft computes for a field carrying tilt metadata of total shift (sr, sc): every sample
+   (a, b) of the output field - plane coordinate (a + rmin, b + cmin) - holds the defining sum at that
+   coordinate minus the shift, times the unitary factor *)
+Theorem propagate_tilt_samples (f : arr S) (ar ac : Qc) (offr offc : Z) (oe : extent) (Pr Pc : Z) (sr sc : Qc)
+        Ir Ic isr isc shr shc a b :
+  (0 < Pr)%Z -> (0 < Pc)%Z ->
+  tilted_window oe Pr Pc sr sc = Some ((Ir, Ic), (isr, isc), (shr, shc)) ->
+  (0 <= a < Ir)%Z -> (0 <= b < Ic)%Z ->
+  let ie := intersection_extent oe (array_extent Pr Pc (qfix sr) (qfix sc)) in
+  get (dft2 sq f ar ac Ir Ic shr shc offr offc true) a b
+  = (fourier_sum f ar ac offr offc (zq (a + fst (fst (fst ie))) - sr) (zq (b + snd (fst ie)) - sc)
+     * sq (qabs (ar * ac)))%K.
+Proof.
+  intros HPr HPc Hw Ha Hb ie.
+  destruct (tilted_window_samples oe Pr Pc sr sc Ir Ic isr isc shr shc HPr HPc Hw) as [_ Hs].
+  destruct (Hs a b) as [E1 E2]. fold ie in E1, E2.
+  rewrite (dft2_defining_sum S Sring Skernel) by assumption.
+  rewrite E1, E2. reflexivity.
+Qed.
+End Ramp.
+
+(* ------------------------------------------------------------------------------------------ *)
+(** * (g) histories of OPD updates and fits: plane.tilt is a concatenation of blocks of [size] entries *)
+
+Lemma ang_list_stride size n (blocks : list (list (Qc * Qc))) :
+  Forall (fun b => length b = size) blocks -> (n < size)%nat ->
+  stride n size (concat (map ang_list blocks)) = ang_list (map (fun b => nth n b (0, 0)) blocks).
+Proof.
+  intros H Hn. rewrite (stride_concat size n _ (mk_tilt 0 0)); [|now apply Forall_map; eapply Forall_impl; [|exact H]; intros b Hb; unfold ang_list; rewrite map_length|assumption].
+  unfold ang_list. rewrite !map_map. apply map_ext. intros b.
+  change (mk_tilt 0 0) with ((fun ab : Qc * Qc => mk_tilt (fst ab) (snd ab)) (0, 0)). now rewrite map_nth.
+Qed.
+
+Lemma lstsq_all_length dxr dxc masks opd ts : lstsq_all dxr dxc masks opd = Ok ts -> length ts = length masks.
+Proof.
+  revert ts. induction masks as [|mk r IH]; intros ts; cbn [lstsq_all].
+  - intros H; injection H as <-. reflexivity.
+  - destruct (lstsq3 dxr dxc mk opd); cbn [rbind]; [|discriminate].
+    destruct (lstsq_all dxr dxc r opd) as [ts0|]; cbn [rbind]; [|discriminate].
+    intros H; injection H as <-. cbn [length]. now rewrite (IH ts0).
+Qed.
+
+(* one fit appends exactly one entry per segment, keeps the masks, and keeps an array OPD an array *)
+Lemma fit_tilt_appends p p' : fit_tilt p = Ok p' -> qp_opd p <> None ->
+  exists blk, qp_tilt p' = qp_tilt p ++ blk /\ length blk = length (qp_masks p)
+              /\ qp_masks p' = qp_masks p /\ qp_opd p' <> None /\ qp_ps p' = qp_ps p.
+Proof.
+  unfold fit_tilt. destruct (qp_ps p) as [[dxr dxc]|] eqn:Eps; [|discriminate].
+  destruct (qp_opd p) as [opd|] eqn:Eo; [|congruence]. intros H _.
+  destruct (qp_masks p) as [|mk [|mk2 r]] eqn:Em.
+  - cbn [lstsq_all rbind] in H. injection H as <-. exists []. cbn. repeat split; auto; congruence.
+  - destruct (lstsq3 dxr dxc mk opd) as [t|]; cbn [rbind] in H; [|discriminate]. injection H as <-.
+    eexists. cbn [qp_tilt qp_masks qp_opd qp_ps]. repeat split; auto; congruence.
+  - destruct (lstsq_all dxr dxc (mk :: mk2 :: r) opd) as [ts|] eqn:El; cbn [rbind] in H; [|discriminate].
+    injection H as <-. eexists. cbn [qp_tilt qp_masks qp_opd qp_ps]. repeat split; auto; try congruence.
+    rewrite map_length. now apply lstsq_all_length in El.
+Qed.
+
+Lemma add_opd_keeps p d : qp_tilt (add_opd p d) = qp_tilt p /\ qp_masks (add_opd p d) = qp_masks p
+  /\ (qp_opd p <> None -> qp_opd (add_opd p d) <> None) /\ qp_ps (add_opd p d) = qp_ps p.
+Proof. unfold add_opd. destruct (qp_opd p); cbn; repeat split; auto; congruence. Qed.
+
+Lemma history_blocks_aux ds : forall p0 p' bs0,
+  qp_opd p0 <> None -> qp_tilt p0 = concat bs0 -> Forall (fun b => length b = length (qp_masks p0)) bs0 ->
+  fold_left update_and_fit ds (Ok p0) = Ok p' ->
+  exists bs, qp_tilt p' = concat (bs0 ++ bs) /\ Forall (fun b => length b = length (qp_masks p0)) (bs0 ++ bs)
+             /\ length bs = length ds /\ qp_masks p' = qp_masks p0.
+Proof.
+  induction ds as [|d ds IH]; intros p0 p' bs0 Ho Ht Hf H; cbn [fold_left] in H.
+  - injection H as <-. exists []. rewrite app_nil_r. auto.
+  - unfold update_and_fit at 2 in H. cbn [rbind] in H.
+    destruct (fit_tilt (add_opd p0 d)) as [p1|e] eqn:E1.
+    + destruct (add_opd_keeps p0 d) as (K1 & K2 & K3 & K4).
+      destruct (fit_tilt_appends _ _ E1 (K3 Ho)) as (blk & B1 & B2 & B3 & B4 & B5).
+      rewrite K1, K2 in *.
+      destruct (IH p1 p' (bs0 ++ [blk])) as (bs & C1 & C2 & C3 & C4); try assumption.
+      * rewrite B1, Ht, concat_app. cbn [concat]. now rewrite app_nil_r.
+      * rewrite B3. apply Forall_app. split; [assumption|]. constructor; [assumption|constructor].
+      * exists (blk :: bs). rewrite <- app_assoc in C1, C2. cbn [app] in C1, C2.
+        rewrite B3 in C2, C4. cbn [length]. auto.
+    + exfalso. clear - H. induction ds as [|d' ds IH]; cbn [fold_left] in H; [discriminate|]. now apply IH.
+Qed.
+
+(* any history fit, (update, fit)*: the tilt list is a concatenation of 1 + #updates blocks, one entry per
+   segment each; together with [stride_concat] every recorded tilt of a segment reaches its field *)
+Theorem history_blocks p ds p' :
+  qp_opd p <> None -> qp_tilt p = [] -> fit_history p ds = Ok p' ->
+  exists blocks, qp_tilt p' = concat blocks
+                 /\ Forall (fun b => length b = length (qp_masks p)) blocks
+                 /\ length blocks = Datatypes.S (length ds).
+Proof.
+  intros Ho Ht H. unfold fit_history in H.
+  destruct (fit_tilt p) as [p1|e] eqn:E1.
+  - destruct (fit_tilt_appends _ _ E1 Ho) as (blk & B1 & B2 & B3 & B4 & B5).
+    destruct (history_blocks_aux ds p1 p' [blk]) as (bs & C1 & C2 & C3 & C4); try assumption.
+    + rewrite B1, Ht. cbn. now rewrite app_nil_r.
+    + rewrite B3. constructor; [assumption|constructor].
+    + exists ([blk] ++ bs). rewrite B3 in C2. repeat split; try assumption. cbn [app length]. now rewrite C3.
+  - exfalso. clear - H. induction ds as [|d' ds IH]; cbn [fold_left] in H; [discriminate|]. now apply IH.
+Qed.
+
+(* ------------------------------------------------------------------------------------------ *)
+(** * plane chains: where Tilt planes stand relative to the masked plane, and in which order, is irrelevant *)
+
+Lemma chain_ctilts ts : forall fields,
+  fold_left chain_step (map CTilt ts) fields = map (fun tl => tl ++ ts) fields.
+Proof.
+  induction ts as [|t ts IH]; intros fields; cbn [map fold_left].
+  - rewrite <- (map_id fields) at 1. apply map_ext. intros; now rewrite app_nil_r.
+  - rewrite IH. cbn [chain_step]. rewrite map_map. apply map_ext. intros tl. now rewrite <- app_assoc.
+Qed.
+
+Theorem chain_tilts_shape w0 pre size pt post :
+  chain_tilts w0 (map CTilt pre ++ CPlane size pt :: map CTilt post)
+  = map (fun n => ((w0 ++ pre) ++ stride n size pt) ++ post) (seq 0 size).
+Proof.
+  unfold chain_tilts. rewrite fold_left_app. cbn [fold_left]. rewrite !chain_ctilts.
+  cbn [map chain_step flat_map]. rewrite app_nil_r, map_map. reflexivity.
+Qed.
+
+Theorem chain_order_irrelevant w0 pre post pre' post' size pt z wl ps os ix :
+  Permutation (pre ++ post) (pre' ++ post') ->
+  map (fun tl => field_shift tl z wl ps os ix) (chain_tilts w0 (map CTilt pre ++ CPlane size pt :: map CTilt post))
+  = map (fun tl => field_shift tl z wl ps os ix) (chain_tilts w0 (map CTilt pre' ++ CPlane size pt :: map CTilt post')).
+Proof.
+  intros H. rewrite !chain_tilts_shape, !map_map. apply map_ext. intros n. apply field_shift_perm.
+  rewrite <- !app_assoc. apply Permutation_app_head.
+  transitivity (stride n size pt ++ (pre ++ post)).
+  - rewrite !app_assoc. apply Permutation_app_tail. apply Permutation_app_comm.
+  - transitivity (stride n size pt ++ (pre' ++ post')); [now apply Permutation_app_head|].
+    rewrite !app_assoc. apply Permutation_app_tail. apply Permutation_app_comm.
+Qed.
+
+(* ------------------------------------------------------------------------------------------ *)
+(** * combined statements used by Properties/C04.v *)
+
+Lemma field_shift_single a b z wl dur duc os :
+  field_shift [mk_tilt a b] z wl (Some (dur, duc)) os IJ = Ok (z * a * os / dur, - (z * b * os / duc)).
+Proof.
+  pose proof (field_shift_formula [(a, b)] z wl dur duc os) as H. cbn [ang_list map fst snd] in H.
+  rewrite H. rewrite !qsum_cons, qsum_nil. f_equal. unfold Qcdiv. f_equal; ring.
+Qed.
+
+Theorem tilt_metadata_equals_ramp (S : Scalar) (Sring : is_ring S) (Sk : kernel_laws S)
+        (f : arr S) a b dxr dxc dur duc wl z os offr offc U V :
+  dur <> 0 -> duc <> 0 -> wl <> 0 -> z <> 0 -> os <> 0 ->
+  exists sr sc,
+    field_shift [mk_tilt a b] z wl (Some (dur, duc)) os IJ = Ok (sr, sc)
+    /\ sr = z * a * os / dur /\ sc = - (z * b * os / duc)
+    /\ fourier_sum (mkArr (nr f) (nc f) (fun x y =>
+          (get f x y * ke (- (opd_ramp a b dxr dxc (x - nr f / 2 + offr) (y - nc f / 2 + offc) / wl)))%K))
+         (dft_alpha dxr dur wl z os) (dft_alpha dxc duc wl z os) offr offc U V
+       = fourier_sum f (dft_alpha dxr dur wl z os) (dft_alpha dxc duc wl z os) offr offc (U - sr) (V - sc).
+Proof.
+  intros. eexists. eexists. split; [apply field_shift_single|]. split; [reflexivity|]. split; [reflexivity|].
+  now apply (ramp_is_shift S Sring Sk).
+Qed.
+
+Lemma field_shift_app_through_fold w tl tl' z wl ps os ix : fold_tilts tl z wl = fold_tilts tl' z wl ->
+  field_shift (w ++ tl) z wl ps os ix = field_shift (w ++ tl') z wl ps os ix.
+Proof. intros H. apply field_shift_through_fold. rewrite !fold_tilts_app. now rewrite H. Qed.
+
+Theorem repeated_fit_accumulates p ds p' :
+  qp_opd p <> None -> qp_tilt p = [] -> fit_history p ds = Ok p' ->
+  let size := length (qp_masks p) in
+  exists blocks : list (list tilt),
+    qp_tilt p' = concat blocks /\ length blocks = Datatypes.S (length ds)
+    /\ Forall (fun b => length b = size) blocks
+    /\ forall n, (n < size)%nat ->
+         stride n size (qp_tilt p') = map (fun b => nth n b (TiltAng 0 0)) blocks
+         /\ forall w tl' z wl ps os ix,
+              fold_tilts tl' z wl = fold_tilts (stride n size (qp_tilt p')) z wl ->
+              field_shift (w ++ tl') z wl ps os ix = field_shift (w ++ stride n size (qp_tilt p')) z wl ps os ix.
+Proof.
+  intros Ho Ht H size. destruct (history_blocks p ds p' Ho Ht H) as (blocks & B1 & B2 & B3).
+  exists blocks. repeat split; try assumption.
+  - rewrite B1. now apply stride_concat.
+  - intros. now apply field_shift_app_through_fold.
+Qed.
